@@ -463,27 +463,32 @@ def atomEq : Tree → Atom → Bool
 /-- first pass of a slice assignment: `[self._formalized_value(i, v) for i, v in enumerate(value)]`
 (list.py:543). The formalized values are live objects not yet stored anywhere; the model parks
 them as temporary roots. -/
-def sliceInPlace (f : Forest) (m : Meta) (i : Nat) : VE → Bool
+def sliceInPlace (f : Forest) (m : Meta) (i : Int) : VE → Bool
   | .ref id => (match f.metaOf? id with
       | some cm => !f.isRoot id && cm.parent == some m.id && cm.path == m.path ++ [Key.i i]
       | none => false)
   | _ => false
 
-def slicePrepare (cfg : Cfg) (m : Meta) : Forest → Nat → List VE → Forest × List VE
+/-- the index the i-th value of a slice assignment is formalized for: its rank in the value
+list (list.py:553, `enumerate(value)`), or — F225 fixed — the position it will be stored at. -/
+def sliceIx (cfg : Cfg) (start step : Int) (i : Nat) : Int :=
+  if cfg.sliceAtTarget then start + i * step else i
+
+def slicePrepare (cfg : Cfg) (m : Meta) (ix : Nat → Int) : Forest → Nat → List VE → Forest × List VE
   | f, _, [] => (f, [])
   | f, i, v :: vs =>
-    -- a child that already sits at (self, i) is returned as it is by `_relocate_if_symbolic`
-    if sliceInPlace f m i v then
-      let rest := slicePrepare cfg m f (i + 1) vs
+    -- a child that already sits at (self, ix i) is returned as it is by `_relocate_if_symbolic`
+    if sliceInPlace f m (ix i) v then
+      let rest := slicePrepare cfg m ix f (i + 1) vs
       (rest.1, v :: rest.2)
     else
-    let r := evalVE cfg f none (some m.id) false m.part (m.path ++ [Key.i i]) v
+    let r := evalVE cfg f none (some m.id) false m.part (m.path ++ [Key.i (ix i)]) v
     match r.2 with
     | .leaf a =>
-      let rest := slicePrepare cfg m r.1 (i + 1) vs
+      let rest := slicePrepare cfg m ix r.1 (i + 1) vs
       (rest.1, VE.atom a :: rest.2)
     | .node nm nits =>
-      let rest := slicePrepare cfg m { r.1 with roots := r.1.roots ++ [.node nm nits] } (i + 1) vs
+      let rest := slicePrepare cfg m ix { r.1 with roots := r.1.roots ++ [.node nm nits] } (i + 1) vs
       (rest.1, VE.ref nm.id :: rest.2)
 
 def sliceLoop (cfg : Cfg) (t : Nat) (start step : Int) : Forest → Nat → List (Bool × VE) → Bool → Except Err (Forest × Bool)
@@ -591,7 +596,9 @@ def step (cfg : Cfg) (f : Forest) (notifyOn : Bool) : Op → Res
       match sliceIndices a b c its.length with
       | none => ⟨f, .err .value⟩
       | some (start, stop, stp) =>
-        let p := slicePrepare cfg m f 0 vs
+        -- F225 fixed: the size of an extended slice is checked before anything is formalized
+        if cfg.sliceAtTarget = true ∧ stp ≠ 1 ∧ rangeLen start stop stp ≠ vs.length then ⟨f, .err .value⟩ else
+        let p := slicePrepare cfg m (sliceIx cfg start stp) f 0 vs
         let size : Nat := rangeLen start stop stp
         let n := p.2.length
         let run (start stp : Int) (repl : List (Bool × VE)) : Res :=
